@@ -61,13 +61,13 @@ TGen ==
   /\ LET P == SetOf(Ev.args.pkgs)  hdr == Ev.args.header  x == Ev.args.prefix  tg == Ev.args.tags
          want == GenDisk(P, hdr, x, tg)
          samecmd == last.cmd = "gen" /\ last.exit = 0 /\ last.args = [Ev.args EXCEPT !.pkgs = P]
-     IN /\ CkStatus => Ev.exit = GenExit(P, hdr)
+     IN /\ CkStatus => Ev.exit = GenExit(P, hdr, tg)
         /\ CkFootprint =>
-             /\ \A s \in Changed(Ev) : s[1] \in P /\ s[2] = x /\ Generates(src[s[1]])                      \* only its own output files
+             /\ \A s \in Changed(Ev) : s[1] \in P /\ s[2] = x /\ Generates(Eff(src[s[1]], tg))             \* only its own output files
              /\ \A s \in Slot : want[s] # disk[s] /\ want[s] # "absent" => ObsDisk(Ev)[s] # "absent"          \* isolation: the others still get output
              /\ NoOther(Ev)
         /\ CkRegen =>
-             /\ Ev.exit = 0 => \A p \in P : Generates(src[p]) => ObsDisk(Ev)[<<p, x>>] = Fresh(src[p], hdr, tg)  \* what a fresh checkout gets
+             /\ Ev.exit = 0 => \A p \in P : Generates(Eff(src[p], tg)) => ObsDisk(Ev)[<<p, x>>] = Fresh(Eff(src[p], tg), hdr, tg)  \* what a fresh checkout gets
              /\ samecmd => Changed(Ev) = {}                                                                     \* gen again changes nothing
         /\ last' = [cmd |-> "gen", args |-> [Ev.args EXCEPT !.pkgs = P], exit |-> Ev.exit]
   /\ Adopt(Ev) /\ UNCHANGED <<src, hist>> /\ st' = st /\ l' = l + 1
@@ -85,10 +85,10 @@ TDiff ==
 
 TCheckShow ==
   /\ More /\ st = "ok" /\ Ev.cmd \in {"check", "show"}
-  /\ LET P == SetOf(Ev.args.pkgs)
-     IN /\ CkCheck => Ev.exit = CheckExit(P)
+  /\ LET P == SetOf(Ev.args.pkgs)  tg == Ev.args.tags
+     IN /\ CkCheck => Ev.exit = CheckExit(P, tg)
         /\ CkFootprint => Changed(Ev) = {} /\ NoOther(Ev)
-        /\ last' = [cmd |-> Ev.cmd, args |-> [pkgs |-> P], exit |-> Ev.exit]
+        /\ last' = [cmd |-> Ev.cmd, args |-> [pkgs |-> P, tags |-> tg], exit |-> Ev.exit]
   /\ Adopt(Ev) /\ UNCHANGED <<src, hist>> /\ st' = st /\ l' = l + 1
 
 TSkip == /\ More /\ st = "skip" /\ Ev.cmd # "reset"
